@@ -91,6 +91,14 @@ CHECKS = {
         real=REAL_COMMON, stub=['the wire and the dictionary store (faults)', 'decoder-variant coins', 'allocator'],
         assumptions=['structure-preserving seeded mutation, not coverage-guided fuzzing: weaker than libFuzzer for deep near-valid inputs', 'streaming decoders run with windowLogMax 25 so that lying window descriptors cannot exhaust memory', 'flavour A (ASan+UBSan) is the detector; P adds guard-zone checks at higher volume'],
     ),
+    'C15': dict(
+        level='exploration',
+        batches=[dict(scenario='c15wear', flavour='P', quick=640, thorough=30000), dict(scenario='c15wear', flavour='F', quick=960, thorough=30000), dict(scenario='c15wear', flavour='A', quick=64, thorough=1600)],
+        rule='one long-lived context compresses 2-6 (thorough 2-10) frames with changing level / windowLog / strategy / LDM / dictionary / ST-MT; before about half of the frames the guarded hook jumps the match-finder index by up to 3.6 GiB (clamped below the pre-emptive reset threshold), every 8th run ends with a 17-21 MiB frame that crosses the real ZSTD_CURRENT_MAX threshold; flavour F runs the same plans with ZSTD_WINDOW_OVERFLOW_CORRECT_FREQUENTLY; thorough adds a >4 GiB pipelined stream every 97th run; each frame: round trip, conformance, equality with a fresh context; long frames with small windows are stream-decoded through tiny outputs (decoder ring wraps); distinct = distinct plan signature; non-trivial = at least 2 frames',
+        real=REAL_COMMON, stub=['the context\'s index "clock" (guarded index-jump hook)', 'allocator', 'pthread primitives (MT frames)'],
+        assumptions=['the index jump reproduces only states a real history can reach (index continues, below the pre-emptive reset margin); the LDM window is re-initialised per frame and is therefore never jumped: its rebasing is covered by flavour F and by the thorough >4 GiB stream', '32-bit builds are out of reach'],
+        coverage_extra=lambda t: dict(real_overflow_corrections=t.probes.get('zstd.overflow_correction', 0), ldm_overflow_corrections=t.probes.get('zstd.ldm_overflow_correction', 0), index_jumps=t.probes.get('zstd.index_jumped', 0), preemptive_index_resets=t.probes.get('zstd.index_too_close_reset', 0), giant_stream_mb=t.probes.get('c15.giant_stream_mb', 0)),
+    ),
 }
 
 def default_root(tier):
